@@ -166,7 +166,7 @@ Qed.
 Lemma h_transfer_quiet w o n s na w' : h_transfer R w o n s na = Ok w' -> quiet w w'.
 Proof.
   unfold h_transfer. intros H. apply tx_bind_ok in H as (A & EA & H). apply get_acct_ok in EA.
-  apply tx_bind_ok in H as ([] & _ & H). apply bind_check in H as [En H].
+  apply bind_check in H as [En H]. apply tx_bind_ok in H as ([] & _ & H).
   apply bind_check in H as [Ef H]. apply bind_check in H as [Er H]. apply bind_check in H as [_ H].
   apply tx_Ok_inj in H; subst.
   destruct (w_accts w n) as [x|] eqn:Enn; [discriminate|].
@@ -852,7 +852,7 @@ Qed.
 Lemma nth_z_map {A B} (f : A -> B) (l : list A) i y :
   nth_z (map f l) i = Some y -> exists x, nth_z l i = Some x /\ f x = y.
 Proof.
-  unfold nth_z. destruct (i <? 0); [discriminate|]. rewrite nth_error_map.
+  rewrite !nth_z_eq. destruct (i <? 0); [discriminate|]. rewrite nth_error_map.
   destruct (nth_error l (Z.to_nat i)) as [x|]; cbn; intros H; [|discriminate]. inversion H. eauto.
 Qed.
 
@@ -1070,7 +1070,7 @@ Proof.
     rewrite EA in E0; inversion E0; subst A0. apply bind_check in H as [_ H]. apply bind_check in H as [C _].
     rewrite Ff in C. discriminate.
   - unfold h_transfer in H. apply tx_bind_ok in H as (A0 & E0 & H). apply get_acct_ok in E0.
-    rewrite EA in E0; inversion E0; subst A0. apply tx_bind_ok in H as ([] & _ & H). apply bind_check in H as [_ H].
+    rewrite EA in E0; inversion E0; subst A0. apply bind_check in H as [_ H]. apply tx_bind_ok in H as ([] & _ & H).
     apply bind_check in H as [C _]. rewrite Ff in C. discriminate.
   - apply h_start_fl_ok in H as (A0 & E0 & _ & V & _). rewrite EA in E0; inversion E0; subst A0.
     apply check_flashloan_can_start_spec in V as (_ & _ & _ & _ & _ & F & _). congruence.
@@ -1102,7 +1102,7 @@ Proof.
   - unfold h_bankruptcy in H. apply tx_bind_ok in H as (A0 & E0 & H). apply get_acct_ok in E0.
     rewrite EA in E0; inversion E0; subst A0. apply bind_check in H as [C _]. rewrite Fr in C. discriminate.
   - unfold h_transfer in H. apply tx_bind_ok in H as (A0 & E0 & H). apply get_acct_ok in E0.
-    rewrite EA in E0; inversion E0; subst A0. apply tx_bind_ok in H as ([] & _ & H). apply bind_check in H as [_ H].
+    rewrite EA in E0; inversion E0; subst A0. apply bind_check in H as [_ H]. apply tx_bind_ok in H as ([] & _ & H).
     apply bind_check in H as [_ H]. apply bind_check in H as [C _]. rewrite Fr in C. discriminate.
   - unfold h_borrow in H. apply tx_bind_ok in H as (A0 & E0 & H). apply get_acct_ok in E0.
     rewrite EA in E0; inversion E0; subst A0. apply tx_bind_ok in H as ([] & _ & H). apply bind_check in H as [C _].
